@@ -14,7 +14,9 @@ def region(root, sel):
             out.append((0, n))
         elif s[0] == 'int':
             i = s[1]
-            if isinstance(i, (A.SymIdx, A.SymOff)):
+            if isinstance(i, Arr):
+                out.append(None)
+            elif isinstance(i, (A.SymIdx, A.SymOff)):
                 out.append(('sym', i))
             else:
                 out.append((i, simp(Size.of(i, A.CTX.atoms) + 1)))
@@ -43,6 +45,16 @@ def relation(root, r1, r2):
             ident = False
             continue
         if x[0] == 'sym' or y[0] == 'sym':
+            # a loop index j in [lo, hi) plus an offset covers the range [lo + off, hi + off)
+            def rng(z):
+                if z[0] != 'sym':
+                    return z
+                base = z[1].base if isinstance(z[1], A.SymOff) else z[1]
+                off = z[1].off if isinstance(z[1], A.SymOff) else 0
+                return (simp(Size.of(base.lo, A.CTX.atoms) + off), simp(Size.of(base.hi, A.CTX.atoms) + off))
+            rx, ry = rng(x), rng(y)
+            if provably_le(rx[1], ry[0]) or provably_le(ry[1], rx[0]):
+                return 'disjoint'
             if x[0] == 'sym' and y[0] == 'sym':
                 if x[1] == y[1]:
                     continue
